@@ -152,6 +152,36 @@ def run(ctx):
                 'scope forms principal/resource in / is-in through cedar.Authorize; random graphs on 5-12 nodes; chains/cycles of 200 and '
                 '2000 nodes.  Each case has THREE answers that must agree: Go, the Coq model, and a reference closure computed by the '
                 'generator. non-trivial = the graph has at least one edge' % exhaustive_n)
+    # the zero EntityUID (empty type and id) is a legal uid in the Go API - a store key, a parent, a request part: `in` treats it like any other
+    Z, GA, GB, GC = gen.vent('', ''), gen.vent('G', 'a'), gen.vent('G', 'b'), gen.vent('G', 'c')
+    zst = ['store', ['ent', Z, ['parents', GA], ['attrs'], ['tags']], ['ent', GA, ['parents', GB, Z], ['attrs'], ['tags']], ['ent', GB, ['parents'], ['attrs'], ['tags']],
+           ['ent', GC, ['parents', Z], ['attrs'], ['tags']]]
+    zreq = ['req', Z, gen.vent('Action', 'view'), GC, ['rec']]
+    zreach = {'z': {'z', 'a', 'b'}, 'a': {'a', 'b', 'z'}, 'b': {'b'}, 'c': {'c', 'z', 'a', 'b'}}
+    zname = {'z': Z, 'a': GA, 'b': GB, 'c': GC}
+    zi = 0
+    for x in 'zabc':
+        for y in 'zabc':
+            zi += 1
+            c = case('z_%d' % zi, 'eval', zst, zreq, ['in', lit(zname[x]), lit(zname[y])])
+            cases.append(c); expect[lib.case_id(c)] = '(ok (b %d))' % (1 if y in zreach[x] else 0)
+            zi += 1
+            c = case('z_%d' % zi, 'eval', zst, zreq, ['in', lit(zname[x]), lit(gen.vset([gen.vent('G', 'nobody'), zname[y]]))])
+            cases.append(c); expect[lib.case_id(c)] = '(ok (b %d))' % (1 if y in zreach[x] else 0)
+        zi += 1
+        c = case('z_%d' % zi, 'eval', zst, zreq, ['in', ['var', 'principal'], lit(zname[x])])
+        cases.append(c); expect[lib.case_id(c)] = '(ok (b %d))' % (1 if x in zreach['z'] else 0)
+        zi += 1
+        c = case('z_%d' % zi, 'eval', zst, zreq, ['isIn', ['var', 'principal'], S(''), lit(zname[x])])
+        cases.append(c); expect[lib.case_id(c)] = '(ok (b %d))' % (1 if x in zreach['z'] else 0)
+        pols = [['policy', S('pin'), 'permit', ['in', zname[x]], ['all'], ['all'], ['conds']],
+                ['policy', S('pisin'), 'permit', ['isin', S(''), zname[x]], ['all'], ['all'], ['conds']],
+                ['policy', S('rin'), 'permit', ['all'], ['all'], ['in', zname[x]], ['conds']]]
+        zi += 1
+        c = case('z_%d' % zi, 'authz', zst, zreq, ['policies'] + pols)
+        cases.append(c)
+        rs = ([S('pin'), S('pisin')] if x in zreach['z'] else []) + ([S('rin')] if x in zreach['c'] else [])
+        expect[lib.case_id(c)] = '((dec %s) (reasons (%s)) (errors ()))' % ('allow' if rs else 'deny', ' '.join(sorted(rs)))
     ctx.exhaustive = True
 
     def nontrivial(c, g):
